@@ -34,6 +34,8 @@ def gen_cases(tier, seed):
     n = 14 if tier == "quick" else 60
     for k in range(n):
         cases.append({"kind": "helper", "gen_seed": seed * 3571 + k, "examples": 400 if tier == "quick" else 20000, "id": "helper#%d" % k})
+    for k in range(2 if tier == "quick" else 12):
+        cases.append({"kind": "call_site", "gen_seed": seed * 7919 + k, "rows": 60 if tier == "quick" else 400, "id": "call_site#%d" % k})
     return cases
 
 
@@ -300,8 +302,107 @@ def helper(case):
     return {"viol": viol, "obs": {"kind": "helper", "examples": case["examples"], "nontrivial": nt, "samples": ex, "containers": dict(forms), "viol_counts": dict(seen)}}
 
 
+def call_site(case):
+    """The averaging helper as the pipeline uses it: the nuclear-winter script's per-country routine is run on the
+    shipped raw rows and on copies of them with impossible cells written in; a recorder on the helper shows what it is
+    handed there.  What reaches the helper must be the raw cells themselves (so that it can ignore the impossible ones),
+    and what the routine returns for the year must be the renormalised mean of the valid raw cells."""
+    env.boot(model=False)
+    import io
+    import contextlib
+    import pandas as pd
+    from src.utilities.import_utilities import ImportUtilities as IU
+
+    with contextlib.redirect_stdout(io.StringIO()):
+        import src.import_scripts_no_food_trade.create_nuclear_winter_csv as nw
+        from src.import_scripts_no_food_trade.create_crop_macros_csv import CropMacros
+
+        macros = CropMacros()
+    raw = pd.read_csv(os.path.join(env.REPO, "data", "no_food_trade", "raw_data", "rutgers_nw_production_raw.csv"))
+    iso_col = "ISO3 Country Code"
+    crops = ["corn", "rice", "soy", "spring_wheat"]
+    cols = [iso_col] + ["%s_year%d" % (c, y) for c in crops + ["grasses"] for y in range(1, 11)]
+    table = IU.import_csv_from_df(raw[cols], iso_col)
+    isos = [i for i in IU.country_codes if i in table and len(table[i]["corn_year1"])]
+    rnd = random.Random(case["gen_seed"])
+    viol, seen = [], collections.Counter()
+    calls = []
+    orig = IU.weighted_average_percentages
+
+    def rec(percentages, weights):
+        r = orig(percentages, weights)
+        calls.append(([float(x) for x in percentages], [float(x) for x in weights], r))
+        return r
+
+    def bad(mech, msg, **d):
+        seen[mech] += 1
+        if seen[mech] <= 2:
+            viol.append({"mech": mech, "msg": msg, "data": d})
+
+    same = lambda a, b: a == b or (a != a and b != b)
+    IMPOSSIBLE = [float("nan"), -100.0000001, -250.0, -1e9, 9.37e36, 1e5 + 1, float("inf"), float("-inf")]
+    n_rows = n_years = n_inj = n_some_rejected = 0
+    IU.weighted_average_percentages = staticmethod(rec)
+    try:
+        for k in range(case["rows"]):
+            iso = isos[k % len(isos)] if k < len(isos) and case["gen_seed"] % 7919 == 0 else rnd.choice(isos)
+            row = table[iso].copy()
+            injected = {}
+            if k % 3:  # two thirds of the rows get impossible cells (the shipped table has very few)
+                for _ in range(rnd.choice([1, 2, 4, 8])):
+                    col = "%s_year%d" % (rnd.choice(crops), rnd.randint(1, 10))
+                    v = rnd.choice(IMPOSSIBLE + [-100.0, -99.999, 1e5, 0.0])
+                    row[col] = v
+                    injected[col] = v
+            del calls[:]
+            try:
+                with contextlib.redirect_stdout(io.StringIO()):
+                    out = nw.get_overall_reduction(row, iso, macros)
+            except Exception as err:  # noqa: BLE001
+                bad("per_country_routine_fails", "%s with cells %s: %r" % (iso, injected, err), iso=iso, injected={c: repr(v) for c, v in injected.items()})
+                continue
+            n_rows += 1
+            n_inj += len(injected)
+            if len(calls) != 10:
+                bad("helper_not_called_once_per_year", "%s: averaging helper called %d times for 10 years" % (iso, len(calls)), iso=iso)
+                continue
+            for y in range(1, 11):
+                ps, ws, res = calls[y - 1]
+                cells = {c: float(row["%s_year%d" % (c, y)].iloc[0]) for c in crops}
+                n_years += 1
+                # the helper is handed the four raw cells of that year (in some crop order, the weights alongside)
+                if sorted(repr(x) for x in ps) != sorted(repr(v) for v in cells.values()):
+                    bad("cells_changed_before_averaging", "%s year %d: raw cells %s but the averaging helper was handed %s" % (iso, y, cells, ps), iso=iso, year=y,
+                        injected={c: repr(v) for c, v in injected.items()})
+                    continue
+                # the weight of each cell, recovered from the recorded call (cells are matched by value; equal cells are interchangeable)
+                valid = [(p, w) for p, w in zip(ps, ws) if -100 <= p <= 1e5]
+                vw = sum(w for _, w in valid)
+                got = float(out["crop_reduction_year%d" % y])
+                if len(valid) < 4:
+                    n_some_rejected += 1
+                if not same(got, res):
+                    bad("year_value_is_not_the_helper_result", "%s year %d: routine reports %r, helper returned %r" % (iso, y, got, res), iso=iso, year=y)
+                if vw <= 1e-12:
+                    if got != SENTINEL:
+                        bad("no_valid_cell_but_no_sentinel", "%s year %d: no valid cell carries weight (cells %s) but %r is reported" % (iso, y, cells, got), iso=iso, year=y)
+                    continue
+                want = sum(p * w for p, w in valid) / vw
+                lo, hi = min(p for p, w in valid if w > 0), max(p for p, w in valid if w > 0)
+                if not (lo - 1e-9 * max(1, abs(lo)) <= got <= hi + 1e-9 * max(1, abs(hi))) or abs(got - want) > 1e-9 * max(1.0, abs(want)):
+                    bad("year_value_differs_from_mean_of_valid_cells", "%s year %d: cells %s weights %s -> %r, renormalised mean of the valid cells %r" % (iso, y, ps, [round(w, 4) for w in ws], got, want),
+                        iso=iso, year=y, injected={c: repr(v) for c, v in injected.items()})
+                g = float(out["grasses_reduction_year%d" % y])
+                if not same(g, float(row["grasses_year%d" % y].iloc[0])):
+                    bad("grass_cell_changed", "%s year %d: grass cell %r reported as %r" % (iso, y, float(row["grasses_year%d" % y].iloc[0]), g), iso=iso, year=y)
+    finally:
+        IU.weighted_average_percentages = staticmethod(orig)
+    return {"viol": viol, "obs": {"kind": "call_site", "rows": n_rows, "years": n_years, "cells_injected": n_inj, "years_with_a_rejected_cell": n_some_rejected, "countries": len(isos),
+                                  "viol_counts": dict(seen)}}
+
+
 def run_case(case, tier):
-    return {"pipeline": pipeline, "table": table, "helper": helper}[case["kind"]](case)
+    return {"pipeline": pipeline, "table": table, "helper": helper, "call_site": call_site}[case["kind"]](case)
 
 
 def summarize(cases, records, tier):
@@ -309,17 +410,22 @@ def summarize(cases, records, tier):
     pipe = [r for r in ok if r["obs"]["kind"] == "pipeline"]
     tab = [r for r in ok if r["obs"]["kind"] == "table"]
     hel = [r for r in ok if r["obs"]["kind"] == "helper"]
+    cs = [r["obs"] for r in ok if r["obs"]["kind"] == "call_site"]
     p = pipe[0]["obs"] if pipe else {}
     t = tab[0]["obs"] if tab else {}
     cov = {
-        "evaluations": int(p.get("scripts_run", 0) + t.get("cells_checked", 0) + sum(r["obs"]["examples"] for r in hel)),
+        "evaluations": int(p.get("scripts_run", 0) + t.get("cells_checked", 0) + sum(r["obs"]["examples"] for r in hel) + sum(c["years"] for c in cs)),
         "distinct_nontrivial": int(p.get("tables", 0) + sum(r["obs"]["nontrivial"] for r in hel)),
         "rule": "evaluations = import scripts executed + table cells checked against the invariants + generated averaging-helper inputs; distinct_nontrivial = tables regenerated and compared byte for byte + helper inputs with at least one valid weighted value",
         "samples": [{"pipeline": p}, {"table": t}] + [{"helper": r["obs"]["samples"]} for r in hel[:2]],
         "scripts_run": p.get("scripts_run"), "tables_compared": p.get("tables"), "tables_byte_identical": p.get("tables_identical"), "cells_in_compared_tables": p.get("cells_compared"),
         "combined_table_rows": t.get("rows"), "combined_table_columns": t.get("columns"), "helper_examples": int(sum(r["obs"]["examples"] for r in hel)),
+        "call_site_rows": int(sum(c["rows"] for c in cs)), "call_site_years_audited": int(sum(c["years"] for c in cs)), "call_site_impossible_cells_written": int(sum(c["cells_injected"] for c in cs)),
+        "call_site_years_with_a_rejected_cell": int(sum(c["years_with_a_rejected_cell"] for c in cs)),
         "exhaustive": True,
     }
+    if cs and not sum(c["years_with_a_rejected_cell"] for c in cs):
+        cov["inconclusive_reason"] = "the averaging helper never saw an impossible cell at its pipeline call site"
     if not pipe or p.get("scripts_run", 0) < 21:
         cov["inconclusive_reason"] = "import pipeline did not run completely (%s)" % p
     if not tab:
